@@ -34,6 +34,31 @@ PROPS = {
         "exhaustive": False,
         "label": "full",
     },
+    "C10": {
+        "components": ["genops", "recvmeta", "ssession", "dryrun"],
+        "trusted_base": [KERNEL, EXTRACT, HARNESSTB, GEN, MD4NOTE, FSNOTE,
+                         "modelled, not verified: the generator's / receiver's file-system calls as an operation list interpreted on a one-path state (Model/GenOps.v); os.Root call semantics, umask, renameio are observed by the correspondence and the end-to-end snapshot oracle"],
+        "assumptions": [
+            "the harness runs as root (mknod, chown); fresh objects belong to uid/gid 0",
+            "wire-byte oracle: in arrangements with an observable byte stream (pull, push, library pull / push) a dry run moves less than a quarter of the source data size, for sources of at least 300 kB of incompressible data; the sender unit oracle is exact (output = echoed input)",
+        ],
+        "rule": "unit: real recvGenerator+touchUpDirs on one entry {regular, directory, symlink, fifo, socket, char, block} x prior {absent, regular same/different/longer, directory empty/non-empty, symlink, fifo, socket, char, block} x 10 option bits incl. -n, lstat tuple and request kind vs model; real recvFile1 (commit+setPerms) vs model; real SendFiles loop over multi-file sessions, normal and -n, well-formed / truncated / bad index / bad header vs model (byte-exact output) with oracle out = echoed input under -n; end to end: -n sessions over trees with all entry types and every update situation, option subsets incl. --delete, five arrangements, full snapshot (type, content, mode, mtime incl. ns, owner, rdev, inode) before = after, exit success, wire-byte bound. non-trivial = destination differs before/after without -n (unit) / session with at least one pending change",
+        "exhaustive": False,
+        "label": "full",
+    },
+    "C11": {
+        "components": ["genops", "recvmeta", "meta"],
+        "trusted_base": [KERNEL, EXTRACT, HARNESSTB, GEN, FSNOTE,
+                         "modelled, not verified: Lstat/Chtimes/Lchown/Chmod/Mkdir/mknodat/bind/rename as operations on a one-path state record (kind, perm, mtime seconds, uid, gid, link target, rdev); uid/gid name mapping (uidlist.go) is exercised end to end only"],
+        "assumptions": [
+            "the harness runs as root; am_root = true in the model runs (theorems quantify over am_root)",
+            "directory modification times are outside the property's statement (regular-file mtime only) and not compared",
+            "uid/gid mapping by name: sender and receiver share one user database in the sandbox, so mapping is the identity on named ids; ids without a name (77777/88888) are kept numerically",
+        ],
+        "rule": "unit: real recvGenerator+touchUpDirs and recvFile1 on all 512 permission values (sampled), mtimes {0, 1, -1, -86400, pre-1970, 2^31-1, -2^31, > 2^31}, uid/gid {0, 1234, 65534}, link targets incl. non-UTF-8 / absolute / '..', rdev values, every subset of -l -p -t -o -g --devices --specials, vs the model and the property oracle; end to end: trees with every entry type, modes 0000..0777 on files and directories (read-only directories with contents), mtimes across the signed 32-bit range with sub-second parts, uids/gids with and without local names, prior destination per entry {missing, same, same with other metadata, different, wrong type}, option subsets, five arrangements; lstat of every destination entry vs source per option. non-trivial = entry whose prior state differs from the source",
+        "exhaustive": False,
+        "label": "full for the generator / receiver metadata logic; id-name mapping by end-to-end oracle only",
+    },
     "C13": {
         "components": ["filter"],
         "trusted_base": [KERNEL, EXTRACT, HARNESSTB, FSNOTE,
